@@ -104,10 +104,12 @@ func (q *Queue) Pop() (result QueueItem, ok bool) {
 
 	dateAdded := item.dateAddedToQueue
 	item.dateAddedToQueue = time.Unix(0, 0)
+	// item stays in q.items and can be updated as soon as the lock is released.
+	opts := item.opts
 
 	q.mu.Unlock()
 
-	return QueueItem{item.opts, dateAdded}, true
+	return QueueItem{opts, dateAdded}, true
 }
 
 // Len returns the number of items in the queue.
